@@ -308,6 +308,10 @@ func (vt *Model) cht(ps int) {
 		vt.cursor.col = ts
 		n += 1
 	}
+	// Tab stops exist beyond the right edge of a narrow screen
+	if vt.cursor.col > vt.margin.right {
+		vt.cursor.col = vt.margin.right
+	}
 }
 
 // Erase in Display (ED) CSI Ps J
